@@ -379,6 +379,34 @@ fn run_case<'a>(ctx: &'a Ctx, case: u64, acc: &'a mut Acc) -> CaseFut<'a> {
                 acc.violation(format!("C04/write-touched-other-rows/{}/{}", v.ty(), position), witness("storage diff shows more than the target row", json!(ch.iter().take(3).map(|c| c.describe()).collect::<Vec<_>>())));
                 violated = true;
             }
+            // R3b: a later write of another field of the row (and a mere reference to the row from another row) leaves
+            // the value, and the field that has a default, as they were written
+            if rng.gen_bool(0.35) && !matches!(v, Val::F(_)) {
+                let mut p = Parameters::new();
+                p.add("id", id.clone()).unwrap();
+                let set_d = db.mutate("mutate { V{ id:$id d:\"chosen, not the default\" } }", p);
+                let other = if fld == "i" { "b:true" } else { "i:7" };
+                let mut p = Parameters::new();
+                p.add("id", id.clone()).unwrap();
+                let upd = db.mutate(&format!("mutate {{ V{{ id:$id {} }} }}", other), p);
+                if set_d.is_ok() && upd.is_ok() {
+                    let mut p = Parameters::new();
+                    p.add("id", id.clone()).unwrap();
+                    acc.count("position/update-of-another-field", 1);
+                    if let Ok(r) = db.query(&format!("query {{ r: V(id=$id){{ id {} d }} }}", fld), p) {
+                        let got = r["r"][0][fld].clone();
+                        let d = r["r"][0]["d"].clone();
+                        if !same(&v.expected(), &got) || d != json!("chosen, not the default") {
+                            acc.violation(
+                                format!("C04/write-of-one-field-changed-another-field/{}", if d != json!("chosen, not the default") { "field-with-a-default" } else { "value-under-test" }),
+                                witness("after V{ id field2:x } the other fields of the row are not what was written", json!({"value_read": got, "d_read": d})),
+                            );
+                            violated = true;
+                            continue;
+                        }
+                    }
+                }
+            }
             // R1 read back
             let mut p = Parameters::new();
             p.add("id", id.clone()).unwrap();
